@@ -151,6 +151,15 @@ package common
 // callers (they only need that Median returns an IsMedianOf value); revealed in Median's own proof.
 //@ ghost opaque func IsMedianOf(input []int64, m int64) bool { return exists s []int64 :: __sorted(s) && __perm(s, input) && (forall lo int64, hi int64 :: len(input) > 0 && lo <= s[(len(input)-1)/2] && s[len(input)/2] <= hi && -4611686018427387904 <= lo && hi <= 4611686018427387903 ==> lo <= m && m <= hi) }
 
+// Counting step of the BFT-timestamp argument (C18): in a sorted sequence in which all entries except the a lowest and
+// the b highest lie in [lo, hi], with a + b <= f and 2f < length (fewer than half are outliers - what a super-majority
+// of famous witnesses with fewer than a third liars gives, see peers.honest_majority), both middle order statistics
+// lie in [lo, hi]; with IsMedianOf this places the median there.
+//@ lemma median_bft(s []int64, lo int64, hi int64, a int, b int, f int)
+//@   requires __sorted(s) && a >= 0 && b >= 0 && f >= 0 && a + b <= f && 2*f < len(s)
+//@   requires forall i int :: a <= i && i < len(s) - b ==> lo <= s[i] && s[i] <= hi
+//@   ensures[middles-honest] lo <= s[(len(s)-1)/2] && s[len(s)/2] <= hi && s[(len(s)-1)/2] <= hi && lo <= s[len(s)/2]
+
 //@ func Median(input []int64) (median int64)
 //@   ints wrap
 //@   safety on
